@@ -202,6 +202,54 @@ def bremsEmission (sqrt exp : α → α) (bc ef : α) (gaunt : α → α → α 
   else some (bremsBins (integ (bremsFunction sqrt exp bc ef gaunt ne te (bremsCharges comp) (bremsDensities comp)))
     mn delta bins)
 
+/-! ### Bremsstrahlung as a state machine: the cache that persists between `emission` calls
+
+`_populate_cache` stores the charges of the charged species and a zeroed density buffer of the same length in the
+persistent `BremsFunction`; every `emission` call overwrites the buffer slot of *every* charged species (positive or not)
+before integrating; `_change()` drops the cache (`none`). -/
+
+structure BremsCache (α : Type) where
+  charges : List α
+  buf : List α
+
+/-- `species_charge = np.array([...])`, `species_density = np.zeros_like(species_charge)` -/
+def bremsPopulate (comp : List (Sp α)) : BremsCache α :=
+  ⟨bremsCharges comp, (bremsCharges comp).map (fun _ => 0)⟩
+
+/-- `i = 0; for species in composition: if species.charge > 0: species_density_mv[i] = density; i += 1` -/
+def bremsFill : List (Sp α) → List α → Nat → List α
+  | [], buf, _ => buf
+  | s :: t, buf, i => if s.charge > 0 then bremsFill t (buf.set i s.dens) (i + 1) else bremsFill t buf i
+
+/-- one `emission` call on the persistent state: (new state, per-bin increments or `none` for the early return).
+The cache is populated *before* the `ne`/`te` guards, the buffer is written only after them. -/
+def bremsEvalSt (sqrt exp : α → α) (bc ef : α) (gaunt : α → α → α → α) (integ : (α → α) → α → α → α)
+    (st : Option (BremsCache α)) (comp : List (Sp α)) (ne te mn delta : α) (bins : Nat) :
+    Option (BremsCache α) × Option (List α) :=
+  let c := match st with
+    | some c => c
+    | none => bremsPopulate comp
+  if ne ≤ 0 then (some c, none)
+  else if te ≤ 0 then (some c, none)
+  else
+    let buf := bremsFill comp c.buf 0
+    (some ⟨c.charges, buf⟩,
+      some (bremsBins (integ (bremsFunction sqrt exp bc ef gaunt ne te c.charges buf)) mn delta bins))
+
+/-- a point of the plasma as the model sees it -/
+structure BremsPoint (α : Type) where
+  comp : List (Sp α)
+  ne : α
+  te : α
+
+/-- a history of `emission` calls on one instance (same spectral window), outputs in order -/
+def bremsRun (sqrt exp : α → α) (bc ef : α) (gaunt : α → α → α → α) (integ : (α → α) → α → α → α)
+    (mn delta : α) (bins : Nat) : Option (BremsCache α) → List (BremsPoint α) → List (Option (List α))
+  | _, [] => []
+  | st, p :: ps =>
+    let r := bremsEvalSt sqrt exp bc ef gaunt integ st p.comp p.ne p.te mn delta bins
+    r.2 :: bremsRun sqrt exp bc ef gaunt integ mn delta bins r.1 ps
+
 /-! ### GaussianQuadrature.evaluate (integrators1d.pyx) -/
 
 def absA (x : α) : α := if x < 0 then -x else x
